@@ -1,14 +1,52 @@
 import Driver.Wire
+import Driver.Casing
+import Driver.Chan
+import Driver.Plugin
+import Driver.EnumD
+import Driver.Json
+import Driver.TimeD
+import Driver.Ops
 /- line protocol: one request per line on stdin, one reply per line on stdout -/
 open Drv
 
-def step (st : St) (line : String) : St × String :=
+structure AllSt where
+  wire : St := {}
+  casing : CasingSt := {}
+  chan : ChanSt := {}
+  plugin : PluginSt := {}
+  enumd : EnumDSt := {}
+  json : JsonSt := {}
+  timed : TimeDSt := {}
+  ops : OpsSt := {}
+
+def step (st : AllSt) (line : String) : AllSt × String :=
   let toks := (line.splitOn " ").filter (· != "")
-  match handleWire st toks with
-  | some r => r
+  match handleWire st.wire toks with
+  | some (s, r) => ({ st with wire := s }, r)
+  | none =>
+  match handleCasing st.casing toks with
+  | some (s, r) => ({ st with casing := s }, r)
+  | none =>
+  match handleChan st.chan toks with
+  | some (s, r) => ({ st with chan := s }, r)
+  | none =>
+  match handlePlugin st.plugin toks with
+  | some (s, r) => ({ st with plugin := s }, r)
+  | none =>
+  match handleEnumD st.enumd toks with
+  | some (s, r) => ({ st with enumd := s }, r)
+  | none =>
+  match handleJson st.json st.wire toks with
+  | some (s, r) => ({ st with json := s }, r)
+  | none =>
+  match handleTimeD st.timed toks with
+  | some (s, r) => ({ st with timed := s }, r)
+  | none =>
+  match handleOps st.ops st.wire toks with
+  | some (s, r) => ({ st with ops := s }, r)
   | none => (st, "bad-op")
 
-partial def loop (h : IO.FS.Stream) (out : IO.FS.Stream) (st : St) : IO Unit := do
+partial def loop (h : IO.FS.Stream) (out : IO.FS.Stream) (st : AllSt) : IO Unit := do
   let line ← h.getLine
   if line.isEmpty then return ()
   let line := (line.dropEndWhile (fun c => c == '\n' || c == '\r')).toString
